@@ -73,9 +73,15 @@ pub fn replies() -> impl Strategy<Value = Vec<String>> {
     prop::collection::vec((0..pool.len()).prop_map(move |i| pool[i].to_string()), 0..8)
 }
 
+/// As `replies`, including replies of several lines.
+pub fn replies_multiline() -> impl Strategy<Value = Vec<String>> {
+    let pool = reply_pool_with_multiline();
+    prop::collection::vec((0..pool.len()).prop_map(move |i| pool[i].to_string()), 0..8)
+}
+
 fn case() -> impl Strategy<Value = BreakCase> {
     let cfg = GenCfg { max_blocks: 10, ..GenCfg::C03.with_input() };
-    (gen::program(cfg), gen::style(), prop_oneof![Just(0u64), any::<u64>()], replies(), any::<u64>(), prop::collection::vec(inspect(), 1..6))
+    (gen::program(cfg), gen::style(), prop_oneof![Just(0u64), any::<u64>()], replies_multiline(), any::<u64>(), prop::collection::vec(inspect(), 1..6))
         .prop_map(|(prog, style, seed, replies, salt, inspections)| BreakCase { raw_lines: None, prog, style, seed, replies, salt, inspections })
 }
 
